@@ -41,7 +41,7 @@ Proof.
     + exists ((r + k * a) / l).
       pose proof (Z.div_mod (r + k * a) l ltac:(lia)). lia.
   - intros s Hs. apply verify_ch_spec in Hs; [|assumption]. destruct Hs as [Hr [q Hq]].
-    symmetry. apply Z.mod_unique_pos with (q := q); lia.
+    apply Z.mod_unique_pos with (q := q); lia.
 Qed.
 
 (* ---- with the key, the commitment and the response fixed, one challenge ----- *)
@@ -171,7 +171,6 @@ Proof.
   - exfalso. replace 8 with (2 * (2 * 2)) in Hd by reflexivity.
     assert (H2' : (l | 2)).
     { apply prime_mult in Hd; [|assumption]. destruct Hd as [Hd|Hd]; [assumption|].
-      apply prime_mult in Hd; [|assumption]. destruct Hd as [Hd|Hd]; [assumption|].
       apply prime_mult in Hd; [|assumption]. destruct Hd; assumption. }
     apply Z.divide_pos_le in H2'; [|lia]. pose proof (prime_ge_2 _ Hp). lia.
   - apply prime_mult in Hd; [|assumption]. destruct Hd as [Hd | Hd]; [assumption | contradiction].
